@@ -1,28 +1,66 @@
 """Input generators for C02 (Framing): valid messages of every receivable class, and hostile
 frame bodies derived from them.  Everything is drawn from a `random.Random` owned by the caller.
 
+Which classes exist, their codes and their field layouts come from the PINNED layout
+specs/Codec/layout.json (loaded with harness.lib_codec), not from the code under test.  The code is
+touched through public surfaces only: the message dataclasses' constructors and attributes,
+`serialize()`, and `obfuscation.encode`.  A refactoring of protocol/primitives.py that keeps the wire
+behaviour therefore cannot disturb this module.
+
 A *body* is what follows the 4-byte length prefix (message code + payload); `frame(body)` adds a
 well-formed prefix, `wire(frame, obf, key)` obfuscates when the connection is obfuscated.
 """
 from __future__ import annotations
 
+import socket
 import struct
 import zlib
-from dataclasses import fields, is_dataclass
 from typing import Any, Optional
 
-U32 = struct.Struct('<I')
+from . import lib_codec
 
-# decoders by connection kind: which family of classes the reader of that kind understands
-FAMILY = {'server': ('ServerMessage', 'Response'), 'peer': ('PeerMessage', 'Request'),
-          'dist': ('DistributedMessage', 'Request'), 'init': ('PeerInitializationMessage', 'Request')}
+U32 = struct.Struct('<I')
+_INT = {'uint8': '<B', 'uint16': '<H', 'uint32': '<I', 'uint64': '<Q', 'int32': '<i'}
+_BITS = {'uint8': 8, 'uint16': 16, 'uint32': 32, 'uint64': 64}
+
+# reader kind -> (family, direction) in the pin
+FAMILY = {'server': ('server', 'Response'), 'peer': ('peer', 'Request'),
+          'dist': ('distributed', 'Request'), 'init': ('peerinit', 'Request')}
+
+_PIN: Optional[dict] = None
+
+
+def pin() -> dict:
+    global _PIN
+    if _PIN is None:
+        _PIN = lib_codec.load_pin()
+    return _PIN
+
+
+def qname(cls) -> str:
+    return cls.__qualname__
+
+
+def spec_of(cls) -> dict:
+    return pin()['messages'][qname(cls)]
 
 
 def classes_of(kind: str) -> list:
-    from aioslsk.protocol import messages as M
-    base, attr = FAMILY[kind]
-    out = [getattr(c, attr) for c in getattr(M, base).__subclasses__() if hasattr(c, attr)]
-    return sorted(out, key=lambda c: c.__qualname__)
+    """The message classes a reader of this kind understands: those the pin lists for the family and
+    the code still defines (looked up by name in aioslsk.protocol.messages)."""
+    fam, direction = FAMILY[kind]
+    out = []
+    for q, m in sorted(pin()['messages'].items()):
+        if m['family'] == fam and m['direction'] == direction:
+            cls = lib_codec.find_class(q)
+            if cls is not None:
+                out.append(cls)
+    return out
+
+
+def code_bytes(cls) -> bytes:
+    m = spec_of(cls)
+    return struct.pack('<B' if m['code_width'] == 1 else '<I', m['code'])
 
 
 def frame(body: bytes) -> bytes:
@@ -99,55 +137,55 @@ class Gen:
             return '0' * 32
         return r.choice(p.texts + p.users[:3] + p.rooms[:2])
 
-    def value(self, typ, subtype, name: str, depth: int = 0) -> Any:
-        from aioslsk.protocol import primitives as P
+    def value(self, t: str, st: str, name: str, depth: int = 0) -> Any:
+        """A value of pinned type `t` (subtype `st` for arrays)."""
         r = self.rng
-        if is_dataclass(typ):
-            return self.record(typ, depth + 1)
-        if typ is P.array:
+        if t in pin()['structs']:
+            return self.struct(t, depth + 1)
+        if t == 'array':
             n = r.choice([0, 1, 1, 2, 3]) if depth < 2 else r.choice([0, 1])
-            return [self.value(subtype, None, name, depth + 1) for _ in range(n)]
-        if typ is P.boolean:
+            return [self.value(st, 'none', name, depth + 1) for _ in range(n)]
+        if t == 'boolean':
             return r.random() < 0.5
-        if typ is P.ipaddr:
+        if t == 'ipaddr':
             return r.choice(self.pools.ips)
-        if typ is P.bytearr:
+        if t == 'bytearr':
             return bytes(r.getrandbits(8) for _ in range(r.choice([0, 1, 16, 200])))
-        if typ is P.string or (isinstance(typ, type) and issubclass(typ, str)):
+        if t == 'string':
             return self._str(name)
-        if typ is P.int32:
+        if t == 'int32':
             return self._int(name, 32, signed=True)
-        bits = {P.uint8: 8, P.uint16: 16, P.uint32: 32, P.uint64: 64}.get(typ)
-        if bits is None and isinstance(typ, type) and issubclass(typ, int):
-            bits = 32
-        if bits is None:
-            raise TypeError(f'no generator for {typ}')
-        return self._int(name, bits)
+        if t in _BITS:
+            return self._int(name, _BITS[t])
+        raise TypeError(f'no generator for pinned type {t}')
 
-    def record(self, cls, depth: int = 0):
+    def _kwargs(self, fields: list, depth: int) -> dict:
         kw = {}
         opt_on = self.rng.random() < 0.6
-        for f in fields(cls):
-            md = f.metadata
-            if 'if_true' in md and not kw.get(md['if_true']):
+        for f in fields:
+            if f['cond'] == 'if_true' and not kw.get(f['on']):
                 continue
-            if 'if_false' in md and kw.get(md['if_false']):
+            if f['cond'] == 'if_false' and kw.get(f['on']):
                 continue
-            if 'optional' in md:
+            if f['optional']:
                 # optional fields form a tail: once one is left out, all later ones are
                 if not opt_on:
                     continue
                 if self.rng.random() < 0.25:
                     opt_on = False
                     continue
-            kw[f.name] = self.value(md['type'], md.get('subtype'), f.name, depth)
-        return cls(**kw)
+            kw[f['name']] = self.value(f['type'], f['subtype'], f['name'], depth)
+        return kw
+
+    def struct(self, name: str, depth: int = 0):
+        return lib_codec.find_struct(name)(**self._kwargs(pin()['structs'][name], depth))
 
     def message(self, cls):
         """A valid instance of message class `cls` (serialisable), or None."""
+        fields = spec_of(cls)['fields']
         for _ in range(8):
             try:
-                m = self.record(cls)
+                m = cls(**self._kwargs(fields, 0))
                 m.serialize()
                 return m
             except Exception:
@@ -156,51 +194,56 @@ class Gen:
 
 
 # ---------------------------------------------------------------------------
-# layout walk: the uncompressed payload of a message, with the offsets of length/count fields
+# layout walk: the uncompressed payload of a message as the pinned layout prescribes it, with the
+# offsets of its length / count fields
 # ---------------------------------------------------------------------------
 
-def _emit(typ, subtype, value, buf: bytearray, marks: list):
-    from aioslsk.protocol import primitives as P
-    if is_dataclass(typ):
-        _walk(value, buf, marks)
-    elif typ is P.array:
+def _emit(t: str, st: str, value, buf: bytearray, marks: list):
+    structs = pin()['structs']
+    if t in structs:
+        _walk(structs[t], value, buf, marks)
+    elif t == 'array':
         marks.append((len(buf), 'count', len(value)))
         buf += U32.pack(len(value))
         for v in value:
-            _emit(subtype, None, v, buf, marks)
-    elif typ is P.string or (isinstance(typ, type) and issubclass(typ, str) and typ is not P.ipaddr):
+            _emit(st, 'none', v, buf, marks)
+    elif t == 'string':
         raw = value.encode('utf-8')
         marks.append((len(buf), 'str', len(raw)))
         buf += U32.pack(len(raw)) + raw
-    elif typ is P.bytearr:
+    elif t == 'bytearr':
         marks.append((len(buf), 'bytes', len(value)))
         buf += U32.pack(len(value)) + bytes(value)
+    elif t == 'ipaddr':
+        buf += socket.inet_aton(value)[::-1]
+    elif t == 'boolean':
+        buf += b'\x01' if value else b'\x00'
     else:
-        typ(value).serialize_into(buf)
+        buf += struct.pack(_INT[t], value)
 
 
-def _walk(obj, buf: bytearray, marks: list):
-    for f in fields(obj):
-        value = obj._get_value_for_field(obj, f)
+def _walk(fields: list, obj, buf: bytearray, marks: list):
+    for f in fields:
+        value = getattr(obj, f['name'])
         if value is None:
             continue
-        _emit(f.metadata['type'], f.metadata.get('subtype'), value, buf, marks)
+        if f['cond'] == 'if_true' and not getattr(obj, f['on']):
+            continue
+        if f['cond'] == 'if_false' and getattr(obj, f['on']):
+            continue
+        _emit(f['type'], f['subtype'], value, buf, marks)
 
 
 def is_compressed(cls) -> bool:
-    import inspect
-    try:
-        p = inspect.signature(cls.serialize).parameters.get('compress')
-        return bool(p is not None and p.default is True)
-    except (TypeError, ValueError):
-        return False
+    return bool(spec_of(cls)['compressed'])
 
 
 def layout(msg):
     """-> (code bytes, uncompressed payload, marks, compressed?)"""
+    cls = type(msg)
     buf, marks = bytearray(), []
-    _walk(msg, buf, marks)
-    return msg.MESSAGE_ID.serialize(), bytes(buf), marks, is_compressed(type(msg))
+    _walk(spec_of(cls)['fields'], msg, buf, marks)
+    return code_bytes(cls), bytes(buf), marks, is_compressed(cls)
 
 
 def body_of(code: bytes, payload: bytes, compressed: bool) -> bytes:
@@ -225,7 +268,7 @@ def selfcheck_layout(gen: Gen, kinds=('server', 'peer', 'dist', 'init')) -> int:
             else:
                 got = ser
             if got != mine:
-                raise AssertionError(f'layout walk disagrees with serialize() for {cls.__qualname__}')
+                raise AssertionError(f'layout walk disagrees with serialize() for {qname(cls)}')
             n += 1
     return n
 
@@ -247,7 +290,7 @@ class Hostile:
     def __init__(self, rng, gen: Gen, kind: str):
         self.rng, self.gen, self.kind = rng, gen, kind
         self.classes = classes_of(kind)
-        self.codes = {int(c.MESSAGE_ID) for c in self.classes}
+        self.codes = {spec_of(c)['code'] for c in self.classes}
         self.code_width = 1 if kind in ('dist', 'init') else 4
         self.compressed = [c for c in self.classes if is_compressed(c)]
         self._cycle = 0
@@ -266,7 +309,7 @@ class Hostile:
     def valid(self, cls=None):
         """A valid message of this kind -> (body, 'valid', class name)."""
         m = self._some_valid(cls)
-        return m.serialize()[4:], 'valid', type(m).__qualname__
+        return m.serialize()[4:], 'valid', qname(type(m))
 
     def next_class(self):
         """Round-robin over the receivable classes so that every handler gets its turn."""
@@ -296,7 +339,7 @@ class Hostile:
             if r.random() < 0.5:
                 return self._rand(r.randrange(1, 4)), ''
             c = r.choice(self.classes)
-            return c.MESSAGE_ID.serialize(), c.__qualname__
+            return code_bytes(c), qname(c)
         if cat == 'unknown_code':
             for _ in range(100):
                 code = r.choice([r.randrange(0, 256), r.randrange(0, 2000), r.getrandbits(32)])
@@ -311,7 +354,7 @@ class Hostile:
         if cat == 'wrong_kind':
             other = r.choice([k for k in ('server', 'peer', 'dist', 'init') if k != self.kind])
             m = Hostile(r, self.gen, other)._some_valid()
-            return m.serialize()[4:], type(m).__qualname__
+            return m.serialize()[4:], qname(type(m))
         if cat == 'zlib':
             if not self.compressed:
                 return None, ''
@@ -332,11 +375,11 @@ class Hostile:
                 z = payload                      # uncompressed payload where zlib data is expected
             else:
                 z = z + self._rand(5)
-            return code + z, type(m).__qualname__
+            return code + z, qname(type(m))
         # the rest start from a valid message
         m = self._some_valid()
         code, payload, marks, comp = layout(m)
-        name = type(m).__qualname__
+        name = qname(type(m))
         if cat == 'truncate':
             if comp and r.random() < 0.5:
                 payload = payload[:r.randrange(0, len(payload) + 1)]
